@@ -168,7 +168,10 @@ def run_cli(sim: kernel.Sim, argv, knob=None, tap=False, cwd=None, label='cli'):
                                 if state0[1].get(k) != state1[1].get(k)}
     _restore(world, state0)
     res['ev_range'] = (n_ev0, len(sim.events))
-    sim.ev('cli_end', exit=res['exit'], stdout=world.norm(res['stdout']), stderr_head=world.norm(res['stderr'])[:200],
+    # only the first line of stderr enters the event log: the prose of Exactly's error messages is not judged by any
+    # property, and it lists sets (e.g. the legal relativity options) in an order that depends on PYTHONHASHSEED
+    sim.ev('cli_end', exit=res['exit'], stdout=world.norm(res['stdout']),
+           stderr_head=world.norm(res['stderr']).split('\n', 1)[0][:200],
            hang=res['hang'], escape=res['escape'], exception=res['exception'],
            cwd_ok=res['cwd_ok'], environ_ok=res['environ_ok'])
     return res
